@@ -292,10 +292,19 @@ pub fn do_op<K: KeyT, V: ValT>(m: &mut Map<K, V>, w: &[&str], chk: &mut Vec<Stri
             Some(v) => Out::Val(v.val()),
             None => Out::None,
         },
-        "getkv" => match m.get_key_value(&K::mk(n(1), 999)) {
-            Some((k, v)) => Out::KV(k.stamp(), v.val()),
-            None => Out::None,
-        },
+        "getkv" => {
+            if n(1) % 2 == 0 {
+                match m.get_key_value(&K::mk(n(1), 999)) {
+                    Some((k, v)) => Out::KV(k.stamp(), v.val()),
+                    None => Out::None,
+                }
+            } else {
+                match m.get_key_value_mut(&K::mk(n(1), 999)) {
+                    Some((k, v)) => Out::KV(k.stamp(), v.val()),
+                    None => Out::None,
+                }
+            }
+        }
         "contains" => Out::Bool(m.contains_key(&K::mk(n(1), 999))),
         "getmut" => match m.get_mut(&K::mk(n(1), 999)) {
             Some(v) => {
@@ -400,7 +409,12 @@ pub fn do_op<K: KeyT, V: ValT>(m: &mut Map<K, V>, w: &[&str], chk: &mut Vec<Stri
         },
         "eref_or_insert" => {
             let k = K::mk(n(1), n(2));
-            let v = m.entry_ref(&k).or_insert(V::mk(n(3)));
+            let e = m.entry_ref(&k);
+            let v = match n(2) % 3 {
+                0 => e.or_insert(V::mk(n(3))),
+                1 => e.or_insert_with(|| V::mk(n(3))),
+                _ => e.or_insert_with_key(|_k| V::mk(n(3))),
+            };
             Out::Val(v.val())
         }
         "eref_insert" => {
@@ -413,7 +427,14 @@ pub fn do_op<K: KeyT, V: ValT>(m: &mut Map<K, V>, w: &[&str], chk: &mut Vec<Stri
                     o
                 }
                 hashbrown::hash_map::EntryRef::Vacant(e) => {
-                    e.insert(V::mk(n(3)));
+                    if n(2) % 2 == 0 {
+                        e.insert(V::mk(n(3)));
+                    } else {
+                        let o = e.insert_entry(V::mk(n(3)));
+                        if o.get().val() != n(3) || o.key().id() != n(1) {
+                            chk.push("entry_ref insert_entry returned an entry that does not hold the inserted pair".into());
+                        }
+                    }
                     Out::None
                 }
             }
@@ -507,7 +528,13 @@ pub fn do_op<K: KeyT, V: ValT>(m: &mut Map<K, V>, w: &[&str], chk: &mut Vec<Stri
             }
         }
         "entry_or_insert" => {
-            let v = m.entry(K::mk(n(1), n(2))).or_insert(V::mk(n(3)));
+            // the flavours of or_insert* (same semantics; which one is chosen by the stamp)
+            let e = m.entry(K::mk(n(1), n(2)));
+            let v = match n(2) % 3 {
+                0 => e.or_insert(V::mk(n(3))),
+                1 => e.or_insert_with(|| V::mk(n(3))),
+                _ => e.or_insert_with_key(|_k| V::mk(n(3))),
+            };
             Out::Val(v.val())
         }
         "entry_insert" => match m.entry(K::mk(n(1), n(2))) {
@@ -518,7 +545,14 @@ pub fn do_op<K: KeyT, V: ValT>(m: &mut Map<K, V>, w: &[&str], chk: &mut Vec<Stri
                 o
             }
             Entry::Vacant(e) => {
-                e.insert(V::mk(n(3)));
+                if n(2) % 2 == 0 {
+                    e.insert(V::mk(n(3)));
+                } else {
+                    let o = e.insert_entry(V::mk(n(3)));
+                    if o.get().val() != n(3) || o.key().id() != n(1) {
+                        chk.push("insert_entry returned an entry that does not hold the inserted pair".into());
+                    }
+                }
                 Out::None
             }
         },
@@ -1388,6 +1422,11 @@ pub fn run_map<K: KeyT, V: ValT>(lines: &[String], out: &mut String) {
                 c.clone_log.clear();
             });
             let mut chk: Vec<String> = Vec::new();
+            let src_len = match w[0] {
+                "o_clone" => Some(m.len()),
+                "o_clone_from" => Some(other.len()),
+                _ => None,
+            };
             let r = catch_unwind(AssertUnwindSafe(|| do_clone_op(&mut m, &mut other, &w, &mut chk)));
             disarm();
             arms.clear();
@@ -1395,6 +1434,17 @@ pub fn run_map<K: KeyT, V: ValT>(lines: &[String], out: &mut String) {
             match r {
                 Ok(o) => {
                     let _ = writeln!(out, "RET {}", o);
+                    // Clone::clone runs once per stored key and once per stored value (Copy types are
+                    // copied without a call): a collection of non-Copy elements cloned with fewer calls
+                    // shares its elements with the source
+                    if let Some(n) = src_len {
+                        let calls = with_ctx(|c| c.clone_log.len());
+                        if std::mem::needs_drop::<K>() || std::any::type_name::<K>().ends_with("Kn") {
+                            if calls != 2 * n {
+                                chk.push(format!("{} of a map with {} entries ran Clone::clone {} times (a clone that shares an element with its source)", w[0], n, calls));
+                            }
+                        }
+                    }
                 }
                 Err(p) => {
                     if let Some(h) = p.downcast_ref::<HvPanic>() {
